@@ -7,6 +7,7 @@ C01.tags   every control byte the encoder emits is dispatched by the decoder wit
 C01.dbl    double-byte token arithmetic is inverse
 C01.pack   nibble / hex packing tables are inverse; packed header bit layout agrees
 C01.unpack packed body: writer nibble placement and filler; reader abstractly executed for every (kind, header byte)
+C01.count  the list header of a node counts exactly the items that are written (same condition for counting and writing)
 C01.dict   dictionary sizes stay below the control bytes
 C01.eq     ProtocolTreeNode.__eq__ compares every component and matches children in both directions
 """
@@ -1108,6 +1109,91 @@ def unpack_obligation(res, kind, flag, count, symbols, HEXU, HEXL):
 
 
 
+# ------------------------------------------------------------------ C01.count
+def canon_cond(e):
+    """(kind, subject text, polarity) for the guard shapes the codec uses; polarity True = 'item present'"""
+    pol = True
+    while isinstance(e, ast.UnaryOp) and isinstance(e.op, ast.Not):
+        pol = not pol
+        e = e.operand
+    if isinstance(e, ast.Compare) and len(e.ops) == 1 and isinstance(e.comparators[0], ast.Constant) and e.comparators[0].value is None:
+        if isinstance(e.ops[0], ast.Is):
+            return ("notnone", unparse(e.left), not pol)
+        if isinstance(e.ops[0], ast.IsNot):
+            return ("notnone", unparse(e.left), pol)
+    if isinstance(e, ast.Call):
+        return ("call", unparse(e), pol)
+    return ("truth", unparse(e), pol)
+
+
+def rule_count(ctx):
+    """the node's list header announces exactly the items that are written: every optional item (content, child list) is
+    counted under the same condition under which it is written; attributes count two items each and are written as two"""
+    fn = ctx.repo.method(ENC, "WriteEncoder", "writeInternal")
+    w = where(ENC, "WriteEncoder.writeInternal", fn.lineno)
+    count_stmt = None
+    for st in fn.body:
+        if isinstance(st, ast.Assign) and isinstance(st.targets[0], ast.Name):
+            for c in ast.walk(fn):
+                if isinstance(c, ast.Call) and is_self_attr(c.func, "writeListStart") and c.args and isinstance(c.args[0], ast.Name) and c.args[0].id == st.targets[0].id:
+                    count_stmt = st
+    if count_stmt is None:
+        ctx.undecided("C01.count", w, fn, "the list-size computation handed to writeListStart was not found")
+        return
+
+    def terms(e):
+        if isinstance(e, ast.BinOp) and isinstance(e.op, ast.Add):
+            return terms(e.left) + terms(e.right)
+        return [e]
+    counted = {}     # canonical condition -> the term
+    const = 0
+    attr_term = None
+    for t in terms(count_stmt.value):
+        if isinstance(t, ast.Constant) and isinstance(t.value, int):
+            const += t.value
+        elif isinstance(t, ast.IfExp) and isinstance(t.body, ast.Constant) and isinstance(t.orelse, ast.Constant) and {t.body.value, t.orelse.value} == {0, 1}:
+            k, subj, pol = canon_cond(t.test)
+            present_when = pol if t.body.value == 1 else not pol
+            counted[(k, subj, present_when)] = t
+        elif isinstance(t, ast.IfExp) and isinstance(t.body, ast.Constant) and t.body.value == 0:
+            attr_term = t
+        else:
+            ctx.undecided("C01.count", w, count_stmt, "term of the list size not modelled: %s" % unparse(t))
+            return
+    ctx.check("C01.count", const == 1, w, "tag counted once", "the tag must count as exactly one list item (constant part is %d)" % const, "one item for the tag")
+    # attributes: 2 per attribute, written as key + value
+    okattr = False
+    if attr_term is not None:
+        k, subj, pol = canon_cond(attr_term.test)
+        o = attr_term.orelse
+        two = isinstance(o, ast.BinOp) and isinstance(o.op, ast.Mult) and {unparse(o.left), unparse(o.right)} == {"2", "len(%s)" % subj}
+        wa = ctx.repo.method(ENC, "WriteEncoder", "writeAttributes")
+        loops = [n for n in ast.walk(wa) if isinstance(n, ast.For)]
+        nwrites = len([c for l in loops for c in ast.walk(l) if isinstance(c, ast.Call) and is_self_attr(c.func, "writeString")]) if len(loops) == 1 else None
+        guard = [n for n in ast.walk(wa) if isinstance(n, ast.If)]
+        gok = len(guard) == 1 and canon_cond(guard[0].test)[0] == "notnone" and canon_cond(guard[0].test)[2] is True
+        okattr = k == "notnone" and pol is False and two and nwrites == 2 and gok
+    ctx.check("C01.count", okattr, w, "attributes: two items each", "attributes must be counted as 2 * len and written as key and value when present", "2 per attribute, key + value written")
+    # optional items
+    written = {}
+    for st in fn.body:
+        if isinstance(st, ast.If) and any(isinstance(c, ast.Call) and is_self_attr(c.func) and c.func.attr.startswith("write") for c in ast.walk(st)):
+            k, subj, pol = canon_cond(st.test)
+            written[(k, subj, pol)] = st
+    for key, t in counted.items():
+        subj = key[1]
+        match = key in written
+        near = [kk for kk in written if kk[1] == subj or subj in kk[1] or kk[1] in subj]
+        ctx.check("C01.count", match, w, "counted: %s" % unparse(t),
+                  "the list header counts an item when %s%s, but it is written when %s: for the inputs on which the two differ the frame announces an item that is never written (or writes one it did not announce)" %
+                  ("" if key[2] else "not ", "%s %s" % (subj, "is not None" if key[0] == "notnone" else "is true"),
+                   "; ".join("%s%s (%s)" % ("" if kk[2] else "not ", kk[1], "is not None" if kk[0] == "notnone" else "truthiness") for kk in near) or "never"),
+                  "counted and written under the same condition")
+    for key, st in written.items():
+        if key not in counted and not any(kk[1] == key[1] for kk in counted):
+            ctx.violate("C01.count", w, st, "an item is written under %s but never counted in the list header" % unparse(st.test))
+
+
 # ------------------------------------------------------------------ C01.dict
 def dictionary_lists(ctx):
     td = ctx.repo.cls(TOK, "TokenDictionary")
@@ -1217,16 +1303,18 @@ def run(ctx):
     ctx.rule("C01.dbl", "double-byte token arithmetic is inverse", floor=2)
     ctx.rule("C01.pack", "packing tables and the packed header are inverse", floor=5)
     ctx.rule("C01.unpack", "packed body: writer nibble layout / filler, reader abstractly executed per (kind, header byte)", floor=6)
+    ctx.rule("C01.count", "the node list header counts exactly the items written", floor=4)
     ctx.rule("C01.dict", "dictionary sizes / reserved entries", floor=4)
     ctx.rule("C01.eq", "tree equality compares every component, children in both directions with a fresh flag", floor=7)
     ctx.assume("frame < 16 MiB (enforced by C05.guard); list size < 65536 (no larger list form in the format); strings are Latin-1")
-    rule_bind(ctx)
-    widths = rule_int(ctx)
-    rule_class(ctx, widths)
-    rule_tags(ctx)
-    rule_dbl(ctx)
-    tables = rule_pack(ctx)
+    ctx.guarded("C01.bind", rule_bind, ctx)
+    widths = ctx.guarded("C01.int", rule_int, ctx)
+    ctx.guarded("C01.class", rule_class, ctx, widths)
+    ctx.guarded("C01.tags", rule_tags, ctx)
+    ctx.guarded("C01.dbl", rule_dbl, ctx)
+    tables = ctx.guarded("C01.pack", rule_pack, ctx)
     if tables:
-        rule_unpack(ctx, tables)
-    rule_dict(ctx)
-    rule_eq(ctx)
+        ctx.guarded("C01.unpack", rule_unpack, ctx, tables)
+    ctx.guarded("C01.count", rule_count, ctx)
+    ctx.guarded("C01.dict", rule_dict, ctx)
+    ctx.guarded("C01.eq", rule_eq, ctx)
